@@ -352,6 +352,25 @@ func fsckIntegrity(g *gitx.Git, dir string) ([]string, gitx.Result) {
 	return bad, res
 }
 
+// hashPaths feeds paths to git hash-object --stdin-paths in chunks (git keeps --literally inputs open: fd limit).
+func hashPaths(g *gitx.Git, dir string, paths []string, args ...string) (gitx.Result, []string) {
+	var ids []string
+	var res gitx.Result
+	for at := 0; at < len(paths); at += 500 {
+		chunk := paths[at:min(at+500, len(paths))]
+		res = g.RunIn(dir, []byte(strings.Join(chunk, "\n")+"\n"), args...)
+		got := strings.Fields(string(res.Out))
+		if res.Code != 0 || len(got) != len(chunk) {
+			if res.Code == 0 {
+				res.Code = -2
+			}
+			return res, nil
+		}
+		ids = append(ids, got...)
+	}
+	return res, ids
+}
+
 // gitErr classifies a failure of the git side: timeouts are inconclusive, anything else is broken machinery.
 func gitErr(c *vf.Ctx, where string, err error) {
 	if err == errTimeout {
@@ -442,8 +461,7 @@ func run(c *vf.Ctx) {
 					sub = append(sub, cs)
 				}
 			}
-			res := g.RunIn(refDir, []byte(strings.Join(paths, "\n")+"\n"), "hash-object", "-t", t.String(), "--literally", "--no-filters", "--stdin-paths")
-			ids := strings.Fields(string(res.Out))
+			res, ids := hashPaths(g, refDir, paths, "hash-object", "-t", t.String(), "--literally", "--no-filters", "--stdin-paths")
 			if res.Code != 0 || len(ids) != len(sub) {
 				c.Broken("git hash-object --stdin-paths (%s,%s): %s", fname, t, res)
 				return
@@ -817,7 +835,7 @@ func runGitWrites(c *vf.Ctx, g *gitx.Git, cases []*objCase, fname string, of for
 			if len(paths) == 0 {
 				continue
 			}
-			res := g.RunIn(dir, []byte(strings.Join(paths, "\n")+"\n"), "-c", "core.looseCompression="+lvl, "hash-object", "-w", "-t", t.String(), "--literally", "--no-filters", "--stdin-paths")
+			res, _ := hashPaths(g, dir, paths, "-c", "core.looseCompression="+lvl, "hash-object", "-w", "-t", t.String(), "--literally", "--no-filters", "--stdin-paths")
 			if res.Code != 0 {
 				c.Broken("git hash-object -w: %s", res)
 				return
